@@ -53,7 +53,7 @@ class BanditConfig:
                 try:
                     with f:
                         tool = tomllib.load(f).get("tool", {})
-                except tomllib.TOMLDecodeError as err:
+                except (tomllib.TOMLDecodeError, UnicodeDecodeError) as err:
                     LOG.error(err)
                     raise utils.ConfigError("Error parsing file.", config_file)
                 # a `tool` entry that is not a table is not a mapping either
